@@ -112,7 +112,15 @@ pub fn run(tier: Tier) -> i32 {
         let name = "neighbourhoods";
         if ctx.may_start(name) {
             let t0 = Instant::now();
-            let mut ins: Vec<c13::In> = c13::inputs(seed, Tier::Quick).into_iter().filter(|i| !i.label.contains("truncated") && !i.label.contains("^=") && !i.label.contains("trailing")).collect();
+            let mut ins: Vec<c13::In> = c13::inputs(seed, Tier::Quick).into_iter().filter(|i| !i.label.contains("truncated") && !i.label.contains("^=") && !i.label.contains("trailing") && !i.label.contains("mutant") && !i.label.contains(" chunk ")).collect();
+            // streams whose output is longer than their dictionary (the window wraps under matches)
+            for it in super::corpus::valid_items(seed, true) {
+                if it.name.starts_with("wraps-4096") {
+                    if let Some(b) = it.build(super::corpus::OptKind::Header) {
+                        ins.push(c13::In { label: format!("lzma {}", it.name), fmt: Fmt::Lzma, opts: b.opts, bytes: b.bytes });
+                    }
+                }
+            }
             for f in ["hello.txt.xz", "good-1-lzma2-1.xz", "block-check-crc32.txt.xz", "empty.txt.xz"] {
                 if let Ok(b) = std::fs::read(format!("/repo/tests/files/{}", f)) {
                     if b.len() <= 700 {
@@ -308,7 +316,9 @@ pub fn run(tier: Tier) -> i32 {
             par_for(items.len() as u64, |i| {
                 let (lc, lp, pb, dict, ml, sz) = items[i as usize];
                 for (pi, p) in payloads.iter().enumerate() {
-                    let case = Case::RawLzma { lc, lp, pb, dict, size: sz, memlimit: ml, ops: vec![RawOp::Dec(Hex(p.clone())), RawOp::Reset, RawOp::Dec(Hex(p.clone()))] };
+                    // decompress, decompress again WITHOUT reset (state left by the first stream, e.g. after an end
+                    // marker), reset, decompress
+                    let case = Case::RawLzma { lc, lp, pb, dict, size: sz, memlimit: ml, ops: vec![RawOp::Dec(Hex(p.clone())), RawOp::Dec(Hex(p.clone())), RawOp::Reset, RawOp::Dec(Hex(p.clone()))] };
                     let o = run_case(&case);
                     // constructor precondition: asserted limits on lc/lp/pb
                     if o.ops.is_empty() && o.v.is_panic() && (lc > 8 || lp > 4 || pb > 4) {
@@ -319,6 +329,39 @@ pub fn run(tier: Tier) -> i32 {
                     judge(&ctx, &case, &o, &|| format!("raw::LzmaDecoder lc={} lp={} pb={} dict_size={} memlimit={:?} unpacked_size={:?} payload #{}", lc, lp, pb, dict, ml, sz, pi));
                 }
             });
+            // valid programs on tiny dictionaries (copies whose source or destination straddles the wrap point)
+            {
+                let mut progs: Vec<(u32, Vec<Sym>)> = Vec::new();
+                for n in 2..=7u32 {
+                    for j in 1..=(n + 3) {
+                        for d in 1..=n.min(j) {
+                            for l in [2u32, n - 1, n, n + 1, 2 * n + 1] {
+                                if l < 2 {
+                                    continue;
+                                }
+                                let mut p: Vec<Sym> = (0..2 * n + j).map(|i| Sym::L((0x41 + i) as u8)).collect();
+                                p.push(Sym::M(d, l));
+                                p.push(Sym::M(n.min(2 * n + j), 3));
+                                p.push(Sym::L(1));
+                                progs.push((n, p));
+                            }
+                        }
+                    }
+                }
+                par_for(progs.len() as u64, |i| {
+                    let (n, p) = &progs[i as usize];
+                    let e = enc::encode(3, 0, 2, *n as u64, p);
+                    if e.bad.is_some() {
+                        return;
+                    }
+                    for sz in [Some(e.expect.len() as u64), None] {
+                        let case = Case::RawLzma { lc: 3, lp: 0, pb: 2, dict: *n, size: sz, memlimit: None, ops: vec![RawOp::Dec(Hex(e.payload.clone()))] };
+                        let o = run_case(&case);
+                        ctx.nontriv(1);
+                        judge(&ctx, &case, &o, &|| format!("raw::LzmaDecoder dict_size={} on a valid {}-symbol program with copies around the wrap point", n, p.len()));
+                    }
+                });
+            }
             // all Options shapes on the public LZMA decoder
             let file = enc::lzma_file(3, 0, 2, 1, None, &e1.payload);
             let mut n_opts = 0u64;
@@ -345,7 +388,8 @@ pub fn run(tier: Tier) -> i32 {
         if ctx.may_start(name) {
             let t0 = Instant::now();
             let all = super::c05::inputs(seed, Tier::Quick);
-            let sel: Vec<&super::c05::Input> = all.iter().filter(|i| i.label.contains(" byte ") || i.label.contains("trailing")).step_by(tier.pick(5, 1)).collect();
+            let step = tier.pick(5usize, 1usize);
+            let sel: Vec<&super::c05::Input> = all.iter().enumerate().filter(|(ix, i)| i.label.contains("trailing") || (i.label.contains(" byte ") && ix % step == 0)).map(|(_, i)| i).collect();
             let mut extra: Vec<(String, Vec<u8>, Opts)> = Vec::new();
             for b in [vec![0u8; 40], vec![0xFF; 40], (0..60u32).map(|i| (i.wrapping_mul(2654435761) >> 24) as u8).collect::<Vec<u8>>()] {
                 let mut x = enc::lzma_header(3, 0, 2, 0xFFFF_FFFF, None);
